@@ -358,6 +358,8 @@ def run_hash_grid(rec, tier, seed):
             # (row C spans 0..0.80, so .32 / .33 fall into neighbouring bins 40 / 41 while row A jumps from bin 0 to bin 99)
             [[.21, .32, .27, .20], [.20, .33, .27, .20], [.20, .00, .60, .20], [.20, .80, .00, .00], [.21, .00, .59, .20], [.21, .40, .19, .20]],
             [[.21, .32, .27, .20], [.20, .33, .27, .20], [.20, .30, .30, .20], [.21, .29, .25, .25], [.20, .40, .20, .20], [.21, .32, .27, .20]],
+            # rows G and T stay within [0, 0.04] over the whole pool while A and C span 0.05..0.9: columns 0 and 1 differ only in the narrow rows
+            [[.5, .46, .03, .01], [.5, .46, .025, .015], [.9, .05, .03, .02], [.05, .9, .04, .01], [.3, .66, .0, .04], [.5, .46, .03, .01]],
             # row T constant, rows A / C at their extremes
             [[.10, .60, .05, .25], [.40, .30, .05, .25], [.10, .59, .06, .25], [.40, .31, .04, .25], [.25, .45, .05, .25]],
             # quarter grid whose first row only takes 0 / 0.25
